@@ -5,6 +5,7 @@ package eventlogger
 
 import (
 	"context"
+	"fmt"
 )
 
 // Predicate is a func that returns true if we want to keep the Event.
@@ -23,6 +24,10 @@ var _ Node = &Filter{}
 // the Event or filter it out of the Pipeline (Filtered Events return nil, nil,
 // which is a successful response).
 func (f *Filter) Process(ctx context.Context, e *Event) (*Event, error) {
+	if f.Predicate == nil {
+		return nil, fmt.Errorf("filter has no predicate: %w", ErrInvalidParameter)
+	}
+
 	// Use the predicate to see if we want to keep the event.
 	keep, err := f.Predicate(e)
 	if err != nil {
